@@ -409,6 +409,7 @@ int main(int argc, char **argv) {
   Harness h;
   h.property_id = "C19";
   h.run = run;
+  h.shrink_budget = 500;
   h.base = 40;
   h.per_size = 16;
   h.setup = [] {
